@@ -1314,6 +1314,23 @@ func (p *Path) rangeOf(x Value) Value {
 			if len(es) > 1 {
 				// Go's map iteration order is unspecified: explore every order.
 				p.hr.noteMapRange(p.where())
+				if len(es) > 4 {
+					// bound: beyond 4 entries only the rotations of insertion order and of its
+					// reverse are explored (2n orders instead of n!)
+					p.hr.noteAssumption("map iteration over more than 4 entries: only rotations of insertion order and of its reverse are explored")
+					n := len(es)
+					k := p.Choose(2 * n)
+					ord := make([]mapEntry, n)
+					for i := 0; i < n; i++ {
+						if k < n {
+							ord[i] = es[(i+k)%n]
+						} else {
+							ord[i] = es[(2*n-1-i+k)%n]
+						}
+					}
+					it.Entries = ord
+					return it
+				}
 				rest := it.Entries
 				var ord []mapEntry
 				for len(rest) > 0 {
